@@ -62,7 +62,8 @@ def run(ck):
             for idx in [num_idx] + cat_idx:
                 if len(idx):
                     A = rng.standard_normal((len(idx), len(idx)))
-                    mat[np.ix_(idx, idx)] = A @ A.T / len(idx) + 0.2 * np.eye(len(idx))
+                    # symmetric PSD blocks (what a fitted model produces) and, every other time, general non-symmetric blocks (any transform that does not mix groups)
+                    mat[np.ix_(idx, idx)] = (A @ A.T / len(idx) + 0.2 * np.eye(len(idx))) if (i // 12) % 2 == 1 else (A / math.sqrt(len(idx)) + 0.3 * np.eye(len(idx)))
         L = float(rng.choice([0.7, 2.0, 10.0]))
         def mk():
             if kn == 'l2':
